@@ -1,4 +1,5 @@
 import hashlib
+import json
 import logging
 import os
 import shelve
@@ -39,6 +40,14 @@ class TransferShelveCache:
     def __init__(self, data_directory: str):
         self.data_directory = data_directory
 
+    @staticmethod
+    def _get_key(transfer: 'Transfer') -> str:
+        # The fields are encoded as a list: concatenating them would give
+        # ('ab', 'c') and ('a', 'bc') the same key
+        identity = json.dumps(
+            [transfer.username, transfer.remote_path, transfer.direction.value])
+        return hashlib.sha256(identity.encode('utf-8')).hexdigest()
+
     def read(self) -> list['Transfer']:
         db_path = os.path.join(self.data_directory, self.DEFAULT_FILENAME)
 
@@ -58,22 +67,15 @@ class TransferShelveCache:
 
         with shelve.open(db_path, flag='c') as database:
             # Update/add transfers
+            written_keys = set()
             for transfer in transfers:
-                key = hashlib.sha256(
-                    (
-                        transfer.username +
-                        transfer.remote_path +
-                        str(transfer.direction.value)
-                    ).encode('utf-8')
-                ).hexdigest()
+                key = self._get_key(transfer)
                 database[key] = transfer
+                written_keys.add(key)
 
-            # Remove non existing transfers
-            keys_to_delete = []
-            for key, db_transfer in database.items():
-                if not any(transfer == db_transfer for transfer in transfers):
-                    keys_to_delete.append(key)
-            for key_to_delete in keys_to_delete:
+            # Remove entries that were not just written: transfers that no
+            # longer exist and entries stored under the key of an older version
+            for key_to_delete in set(database.keys()) - written_keys:
                 database.pop(key_to_delete)
 
         logger.info("successfully wrote %d transfers to : %s", len(transfers), db_path)
